@@ -223,11 +223,48 @@ def translate():
 # ----------------------------------------------------------------------------------------
 # shared: case descriptions, the real calls, the wire encoding
 # ----------------------------------------------------------------------------------------
-THEOREMS = []
+THEOREMS = [
+    'C07.fmtFixed_error', 'C07.parseNum_fmtFixed', 'C07.fixedVal_error', 'C07.parseInt_intTok',
+    'C07.dump_bbox', 'C07.dump_bbox_corners', 'C07.dump_bbox_lo_lt_hi',
+    'C07.poscar_scale', 'C07.info_names_used',
+    'C07.atom_style_columns_match_lammps', 'C07.velocity_columns_match_lammps', 'C07.dump_columns_match_lammps',
+    'C07.unit_styles_match_lammps',
+]
 PARTIAL = {}
-RULE = ''
-ASSUMPTIONS = []
-TRUSTED = []
+RULE = ('systems of 1-10 atoms in orthogonal/triclinic cells (origin anywhere, all 8 pbc settings), atoms inside, outside and '
+        'exactly on faces; two regimes: "grid" (power-of-two cell lengths, dyadic tilts/positions: the float arithmetic of '
+        'wrap and of the writers is exact, texts must be identical) and "generic" doubles (texts compared to the printed '
+        'precision); all 18 atom styles + hybrids x 8 unit styles, %.Nf / %.Ne formats of 1..16 digits, velocity and '
+        'style-specific columns, dump files with scaled/unwrapped position columns and own atom ids, POSCAR direct/'
+        'Cartesian with scale != 1, tables with unit/scaled columns; distinct = distinct canonical request line; '
+        'non-trivial = the real writer produced a file')
+ASSUMPTIONS = [
+    "CPython '%.Nf' / '%.Ne' of a double is the correctly rounded (half-even on ties) decimal of its exact value "
+    '(checked against the model on every run, incl. ties and subnormals)',
+    'pandas DataFrame.to_csv(sep=" ", float_format=F) prints every float column value as F % value and int columns as '
+    'decimal integers',
+    'IEEE double rounding in wrap / unit conversion is bounded by 256 eps (max |value|, system size); cases the exact '
+    'arithmetic places within 1e-8 of a wrap decision (periodic face, min<=0 / max>=1) are exempt from text comparison',
+    'the hand-encoded LAMMPS tables (Atoms/Velocities line layouts of the read_data page as of the LAMMPS versions '
+    'atomman targets: template = id mol template-index template-atom type x y z, smd without x0 y0 z0; dump custom '
+    'attributes; units page) are transcribed correctly',
+    'unit values (angstrom, ps, g/mol, ...) come from atomman.unitconvert (property C09)',
+]
+TRUSTED = ['numpy/pandas in the real writers', 'the Python oracle parsers in harness/props/c07.py (cross-checked against the '
+           'Lean parsers on every real output)']
+MANIFEST = {
+    'text': 'Lean model of the four writers (exact %.Nf/%.Ne printing of rationals, wrap with image flags, header/box/'
+            'Atoms/Velocities layout, dump bounding box, POSCAR scaling) plus independent parsers written from the LAMMPS/'
+            'VASP format rules; theorems: reading back a printed number is within half a unit of the last place, '
+            'bounding-box identities and inverse, POSCAR scale applies to lattice and Cartesian rows, the command snippet '
+            'names the units/atom_style/boundary used, generated atom-style/dump/unit tables equal the hand-encoded LAMMPS '
+            'tables. Tie: text equality atomman-vs-model on every case (exact on the dyadic grid), Lean parser applied to '
+            'the real output and compared with the system; failing-input search with an independent Python parser.',
+    'note': 'Trusted: Lean kernel + propext/Classical.choice/Quot.sound; the table extractor (exec of the pure prop_info '
+            'functions with a symbolic style.unit) and the correspondence harness; CPython/pandas number printing; the '
+            'hand-transcribed LAMMPS manual tables.',
+    'technique': 'Lean 4 theorems over a hand-written model + translator-generated tables + differential correspondence',
+}
 
 # per-atom properties each atom_style needs besides id/type/pos: (prop, is_int, ncomp)
 STYLE_PROPS = {
